@@ -10,6 +10,7 @@ import CprocVerif.Lemmas.Lower2Arr
 import CprocVerif.Lemmas.Lower2Leaf3
 import CprocVerif.Lemmas.Lower2CallP
 import CprocVerif.Lemmas.Lower2Ptr
+import CprocVerif.Lemmas.Lower2Init
 
 set_option linter.unusedSimpArgs false
 
@@ -87,6 +88,7 @@ theorem sim_all : ∀ fuel, AllStmt fuel := by
     | adecl i t cnt xb => exact sim_adecl T n i t cnt xb hex hp inv
     | aload d dt a t cnt xb x => exact sim_aload T n d dt a t cnt xb x hex hfr hwt hp hext hits inv
     | astore a t cnt xb x v => exact sim_astore T n hc a t cnt xb x v hex hfr hwt hp hext hits inv
+    | ainit a t cnt xb j v => exact sim_ainit T n hc a t cnt xb j v hex hfr hwt hp hext hits inv
     | call dst rt fn args =>
       rcases hT with hP | hd
       · simp only [exec, hP, lookup, List.find?_nil] at hex
